@@ -78,6 +78,8 @@ prop("C19",
      function_modules=dict({"storage_filesystem:FilesystemStorageBackend.__init__@config-only": ["config"], "storage_memory:MemoryStorageBackend.__init__@config-only": ["config"]},
                            **{MB + n: ["membackend"] for n in ("memoize", "forget_call", "forget_everything", "write_metadata", "get_mementos", "is_memoized", "read_result")}),
      design_ref="DESIGN.md section 6, C19",
+     # these two always raise (a null store has nothing to read, a null runner refuses to run): their postconditions are unreachable by design
+     never_return=["storage_null:NullStorageBackend.read_result", "runner_null:NullRunnerBackend.batch_run"],
      assume_props=["C05"],
      trusted=["clauses tagged C05 (cache/store coherence) are assumed here and proved by the C05 check over the same functions",
               "the ghost write counters of the abstract MetadataSource / DataSource count every mutating interface method (interface contract)"],
